@@ -109,7 +109,12 @@ def clang_ast(path):
         json.dump(d, f)
     os.replace(tmp, key)
     # keep the cache small
-    ents = sorted(glob.glob(os.path.join(CACHE, "*.json")), key=os.path.getmtime)
+    def _mtime(x):
+        try:
+            return os.path.getmtime(x)
+        except OSError:             # pruned by a concurrent run
+            return 0
+    ents = sorted(glob.glob(os.path.join(CACHE, "*.json")), key=_mtime)
     for old in ents[:-25]:
         try:
             os.unlink(old)
